@@ -1,0 +1,25 @@
+//go:build verif
+// +build verif
+
+package mqtt
+
+// SimInitID, if set, supplies the initial packet identifier counter of
+// each BaseClient instead of the random source. (verification hook)
+var SimInitID func() (uint32, bool)
+
+// SimYield, if set, is called at named points where no mutex is held.
+// (verification hook)
+var SimYield func(site string)
+
+func simInitID() (uint32, bool) {
+	if f := SimInitID; f != nil {
+		return f()
+	}
+	return 0, false
+}
+
+func simYield(site string) {
+	if f := SimYield; f != nil {
+		f(site)
+	}
+}
